@@ -341,12 +341,9 @@ class SeparatedCoords(Coords):
     def __imul__(self, f):
         '''Multiply each coordinate with `f` separately in-place.
         '''
-        if np.isscalar(f):
-            for i in range(len(self)):
-                self.separated_coords[i] *= f
-        else:
-            for i in range(len(self)):
-                self.separated_coords[i] *= f[i]
+        f = np.ones(len(self)) * f
+        for i in range(len(self)):
+            self.separated_coords[i] *= f[i]
         return self
 
     def __eq__(self, other):
